@@ -155,7 +155,55 @@ let cmd_encode (req : json) : json =
         ("spec", spec);
         ("branch", Bool (is_branch m)) ]
 
-let handlers : (string * (json -> json)) list ref = ref [ ("encode", cmd_encode) ]
+(* ---------- C09 ---------- *)
+let seg_of (j : json) : segment =
+  { s_start = to_z (field j "start"); s_data = List.map to_n (to_list (field j "data"));
+    s_bank = to_opt to_n (field j "bank"); s_write = to_bool (field j "write") }
+let bankopts_of (j : json) : bank_options =
+  { b_name = to_n (field j "name"); b_size = to_opt to_z (field j "size");
+    b_fill = to_opt to_n (field j "fill"); b_filename = to_opt to_n (field j "filename") }
+let fmt_of (j : json) : output_format option =
+  match j with Str "prg" -> Some Prg | Str "bin" -> Some Bin | _ -> None
+let jfiles (fs : (n option * n list) list) : json =
+  Arr (List.map (fun (f, d) -> Arr [ jopt jn f; jlist jn d ]) fs)
+let jmerge_error = function
+  | UnknownBank (i, b) -> Obj [ ("kind", Str "unknown_bank"); ("seg", jnat i); ("bank", jn b) ]
+  | BankTooShortNoFill (b, s, l) -> Obj [ ("kind", Str "short_no_fill"); ("bank", jn b); ("size", jz s); ("len", jz l) ]
+  | BankTooLarge (b, s, l) -> Obj [ ("kind", Str "too_large"); ("bank", jn b); ("size", jz s); ("len", jz l) ]
+
+let jbuild_result = function
+  | BuildFiles fs -> Obj [ ("result", Str "files"); ("files", jfiles fs) ]
+  | BuildPrgNeedsSingleBank -> Obj [ ("result", Str "prg_single") ]
+  | BuildMergeErrors es -> Obj [ ("result", Str "errors"); ("errors", jlist jmerge_error es) ]
+
+let cmd_layout (req : json) : json =
+  let fmt = fmt_of (field req "format") in
+  let banks = List.map bankopts_of (to_list (field req "banks")) in
+  let segs = List.map seg_of (to_list (field req "segs")) in
+  if to_bool (field req "declared") then begin
+    let dflt = to_n (field req "default") in
+    let model = match build_project dflt fmt banks segs with
+      | ProjectUnassigned l -> Obj [ ("result", Str "unassigned"); ("segs", jlist jnat l) ]
+      | ProjectBuilt r -> jbuild_result r in
+    let spec = match spec_project dflt fmt banks segs with Some fs -> jfiles fs | None -> Null in
+    Obj [ ("model", model); ("spec", spec) ]
+  end else begin
+    let model = jbuild_result (build_output fmt banks segs) in
+    let merged =
+      match merge_segments banks segs with
+      | Inl m -> jlist (fun (o, b) -> Obj [ ("name", jn o.b_name); ("lo", jz b.k_lo); ("hi", jz b.k_hi); ("data", jlist jn b.k_data) ]) m
+      | Inr es -> Null in
+    let spec = match spec_build fmt banks segs with Some fs -> jfiles fs | None -> Null in
+    Obj [ ("model", model); ("merged", merged); ("spec", spec) ]
+  end
+
+let cmd_finalize (req : json) : json =
+  let banks = List.map to_n (to_list (field req "banks")) in
+  let sb = List.map (to_opt to_n) (to_list (field req "seg_banks")) in
+  let ((b, s), u) = finalize (to_n (field req "default")) banks sb in
+  Obj [ ("banks", jlist jn b); ("seg_banks", jlist (jopt jn) s); ("unassigned", jlist jnat u) ]
+
+let handlers : (string * (json -> json)) list ref = ref [ ("encode", cmd_encode); ("layout", cmd_layout); ("finalize", cmd_finalize) ]
 
 let () =
   (try
